@@ -131,6 +131,7 @@ func c04R2R3(c *Ctx) {
 		if !c.complete(ex, "C04.R2", role, fn) {
 			continue
 		}
+		tolerated := map[string]bool{}
 		nReuse, nGrant := 0, 0
 		okFail, okRev, okTol, okTested, okClass := true, true, true, true, true
 		var wFail, wRev, wTol, wTested, wClass *Path
@@ -150,6 +151,13 @@ func c04R2R3(c *Ctx) {
 					okFail, wFail = false, p
 				}
 				if errorRoot(p.ErrRet()) == "fosite.ErrInvalidGrant" {
+					// a store may answer ErrNotFound when the grant has no such token left (purged access
+					// token): the reuse branch tolerates exactly that and still completes as invalid_grant
+					for _, e := range p.Calls(".RevokeRefreshToken", ".RevokeAccessToken") {
+						if p.Holds(atomB(call("errors.Is", e.Result, gl("fosite.ErrNotFound"))), true) {
+							tolerated[e.Name] = true
+						}
+					}
 					nGrant++
 					want := getID(stored).Key()
 					for _, nm := range []string{".RevokeRefreshToken", ".RevokeAccessToken"} {
@@ -195,6 +203,13 @@ func c04R2R3(c *Ctx) {
 		} else {
 			c.Check(okFail, "C04.R2", role, fn, "reuse-fails", "every path through the reuse branch is a fail exit", "a reuse path can succeed", wFail)
 			c.Check(nGrant > 0 && okRev, "C04.R2", role, fn, "reuse-revokes-family", "the invalid_grant exit of the reuse branch is reached only after RevokeRefreshToken and RevokeAccessToken ran with GetID(stored)", whyRev, wRev)
+			whyT := ""
+			for _, nm := range []string{".RevokeRefreshToken", ".RevokeAccessToken"} {
+				if !tolerated[nm] {
+					whyT = "no reuse path completes as invalid_grant with " + nm + " having answered ErrNotFound: a store that reports a missing token that way turns the replay into a rolled-back error"
+				}
+			}
+			c.Check(whyT == "", "C04.R2", role, fn, "reuse-tolerates-notfound", "ErrNotFound from either revocation of the reuse branch is tolerated: the branch still commits and answers invalid_grant", whyT, nil)
 			c.Check(okTol, "C04.R2", role, fn, "reuse-tolerates-only-notfound", "the reuse branch continues past a failed storage call only for ErrNotFound", whyTol, wTol)
 		}
 		c.Check(okClass, "C04.R2", role, fn, "reuse-classified-first", "every exit after the refresh-token lookup is taken only once its error was tested against ErrInactiveToken (or is nil): no other check can pre-empt reuse detection", "an exit is reachable after the lookup without the inactive-token test", wClass)
